@@ -219,13 +219,16 @@ func (e *Exec) harnessAPI2(fn *ssa.Function, args []Value) (Value, bool) {
 	case "vWatch":
 		// vWatch(mu *sync.Mutex, p interface{}): every later access to memory reachable from p
 		// must happen while mu is held
-		mu := args[0].(*Pointer)
+		mu := ptrArg(args[0])
+		if mu == nil {
+			e.unsupported("vWatch: lock argument is not a pointer")
+		}
 		if e.watch == nil {
 			e.watch = map[*Cell]*Cell{}
 			e.watchBuf = map[*SymBuf]*Cell{}
 		}
 		if e.lockHeld == nil {
-			e.lockHeld = map[*Cell]bool{}
+			e.lockHeld = map[*Cell]int{}
 		}
 		e.watchOff = true
 		e.watchValue(args[1], mu.C, 0)
@@ -281,8 +284,11 @@ func (e *Exec) harnessAPI2(fn *ssa.Function, args []Value) (Value, bool) {
 		e.watchOff = false
 		return nil, true
 	case "vHeld":
-		mu := args[0].(*Pointer)
-		return smt.BoolC(e.lockHeld[mu.C]), true
+		mu := ptrArg(args[0])
+		if mu == nil {
+			e.unsupported("vHeld: lock argument is not a pointer")
+		}
+		return smt.BoolC(e.lockHeld[mu.C] != 0), true
 	case "vWatchHits":
 		return smt.BVC(64, uint64(e.watchHits)), true
 	case "vBufClone":
@@ -302,8 +308,19 @@ func (e *Exec) harnessAPI2(fn *ssa.Function, args []Value) (Value, bool) {
 	return nil, false
 }
 
+func ptrArg(v Value) *Pointer {
+	if ifc, ok := v.(*Iface); ok {
+		v = ifc.V
+	}
+	p, _ := v.(*Pointer)
+	if p == nil || p.C == nil {
+		return nil
+	}
+	return p
+}
+
 func (e *Exec) watchCell(c *Cell, mu *Cell, depth int) {
-	if c == nil || depth > 6 {
+	if c == nil || depth > 6 || c == mu {
 		return
 	}
 	if c.Sub != nil {
